@@ -37,7 +37,10 @@ RULE = (
     "types x 10 shapes (scalar, empty, 1/2/3/5/7/9 elements, rank 4 with a zero dim, rank 6) x value "
     "classes {zeros, all-ones bits, min/max, +-inf, NaN payloads, random} x every applicable "
     "representation x 8 destinations, plus the string grid and random cases (random rank/dims/mixed "
-    "values). thorough enumerates the whole grid; quick = every sub-byte cell + a seeded 60% of the "
+    "values). Representations include plain Python floats that are NOT values of the declared type (just "
+    "inside either end of an element's rounding interval, or on an end that ties to it) given to ir.tensor, "
+    "and arrays in non-native byte order / unaligned storage (a constructor may refuse the former; a tensor "
+    "that is built must agree). thorough enumerates the whole grid; quick = every sub-byte cell + a seeded 60% of the "
     "rest. A case is non-trivial when the array is non-empty and not all-zero; distinct = distinct "
     "(type, representation, shape, value class, destination)."
 )
@@ -46,6 +49,7 @@ ASSUMPTIONS = [
     "onnx.numpy_helper / onnx.helper are used only as an additional, independent encoder/decoder; the primary oracle is the harness bit packer, and both agreed on the whole grid",
     "the host is little endian (the big-endian branches of the library are not exercised)",
     "signalling NaNs are excluded for representations whose data passes through Python floats / protobuf float fields (the CPU quiets them outside the library)",
+    "an unrounded Python float is used as a source only where numpy/ml_dtypes' own conversion of that one Python float and onnx.helper.make_tensor both return the element it was constructed for (round to nearest, ties to even); elsewhere the expected value is ambiguous, the exact value is used and the element is counted in report_only_trusted_base_conversion_differs",
     "the file system of $VF_SHARD_TMP is a regular local file system supporting copy_file_range or rejecting it with one of the errno values the library tolerates",
 ]
 
@@ -105,6 +109,8 @@ def plan(tier: str) -> dict:
             "groups_subbyte": 30 if quick else 7000,
             "groups_external": 20 if quick else 9000,
             "groups_string": 2 if quick else 250,
+            "unrounded_elements_hard(eps<=2^-30)": 60 if quick else 20000,
+            "nonnative_byte_order_constructions": 20 if quick else 5000,
         },
         "min_nontrivial": 400 if quick else 150000,
         "params": {},
@@ -421,6 +427,12 @@ def _run_numeric(ctx, shrinker, counts: Counter, dtype, shape, vclass, rep_name,
     if reason is not None:
         ctx.count(("not_applicable:" if reason.startswith("n/a:") else "skipped_unsupported:") + reason.split(":", 1)[1])
         return
+    refused_before = counts["refused_by_constructor"]
+    fails = K.evaluate(env, rep_name, counts)
+    if counts["refused_by_constructor"] != refused_before:
+        # the constructor refused this input (allowed for this representation): no tensor, nothing observed
+        ctx.count("groups_refused_by_constructor")
+        return
     ctx.count("groups")
     ctx.count(f"groups_{kind}")
     ctx.count(f"groups_bits={sp.bits}")
@@ -429,7 +441,6 @@ def _run_numeric(ctx, shrinker, counts: Counter, dtype, shape, vclass, rep_name,
         ctx.count("groups_subbyte")
     if rep.external:
         ctx.count("groups_external")
-    fails = K.evaluate(env, rep_name, counts)
     nontrivial = env.size > 0 and any(pats)
     for dest in K.DESTS:
         ctx.evaluation(f"{dtype}|{shape}|{vclass}|{rep_name}|{dest}", nontrivial=nontrivial)
